@@ -62,7 +62,12 @@ func (fr *Frame) stdlibCall(in *ssa.Call, callee *ssa.Function, args []*GVal) *G
 	case "strings.Replace":
 		use("strings.Replace(s, old, new, n) == str.replace(s, old, new) for n < 0; never panics")
 		ex.p.DeclareFun("gs.replaceAll", []*Sort{SStr, SStr, SStr}, SStr)
-		r := App("gs.replaceAll", SStr, fr.term(args[0]), fr.term(args[1]), fr.term(args[2]))
+		ex.p.DeclareFun("gs.replaceN", []*Sort{SStr, SStr, SStr, SInt}, SStr)
+		// every occurrence is replaced exactly when the count is negative; otherwise the result also
+		// depends on the count
+		cnt := fr.term(args[3])
+		r := Ite(Lt(cnt, IntLit(0)), App("gs.replaceAll", SStr, fr.term(args[0]), fr.term(args[1]), fr.term(args[2])),
+			App("gs.replaceN", SStr, fr.term(args[0]), fr.term(args[1]), fr.term(args[2]), cnt))
 		ex.addFact(Le(IntLit(0), slen(r)))
 		return &GVal{T: r, Typ: in.Type()}
 	case "strings.HasPrefix", "strings.HasSuffix", "strings.Contains":
@@ -306,12 +311,13 @@ func (fr *Frame) stdlibCall2(in *ssa.Call, callee *ssa.Function, name string, ar
 	case "strconv.ParseFloat":
 		use("strconv.ParseFloat(s, 64): err == nil gives some float64 — possibly NaN or an infinity (it accepts \"inf\", \"nan\", hex floats, underscores); never panics")
 		sT := fr.term(args[0])
-		goFn("parseFloatVal", []*Sort{SStr}, SF64)
-		goFn("parseFloatOK", []*Sort{SStr}, SBool)
-		okc := App("parseFloatOK", SBool, sT)
-		goFn("parseFloatErr", []*Sort{SStr}, SInt)
-		e := Ite(okc, mk("ErrNil", SErr), App("ErrOther", SErr, App("parseFloatErr", SInt, sT)))
-		return &GVal{Tuple: []*GVal{{T: App("parseFloatVal", SF64, sT), Typ: types.Typ[types.Float64]}, {T: e, Typ: errType()}}, Typ: in.Type()}
+		bits := fr.term(args[1]) // the precision is part of what is computed
+		goFn("parseFloatVal", []*Sort{SStr, SInt}, SF64)
+		goFn("parseFloatOK", []*Sort{SStr, SInt}, SBool)
+		okc := App("parseFloatOK", SBool, sT, bits)
+		goFn("parseFloatErr", []*Sort{SStr, SInt}, SInt)
+		e := Ite(okc, mk("ErrNil", SErr), App("ErrOther", SErr, App("parseFloatErr", SInt, sT, bits)))
+		return &GVal{Tuple: []*GVal{{T: App("parseFloatVal", SF64, sT, bits), Typ: types.Typ[types.Float64]}, {T: e, Typ: errType()}}, Typ: in.Type()}
 	case "sort.Stable":
 		return fr.sortStable(in, args, true)
 	case "sort.Sort":
